@@ -382,7 +382,7 @@ func (t *Term) printGlyph(r rune) {
 	}
 	t.Text = append(t.Text, r)
 	w := runewidth.RuneWidth(r)
-	if r >= 0 && r <= 0x10ffff && unicode.In(r, unicode.Cf, unicode.Mn, unicode.Me) {
+	if r >= 0 && r <= 0x10ffff && (unicode.In(r, unicode.Cf, unicode.Mn, unicode.Me) || (r >= 0x1160 && r <= 0x11ff) || (r >= 0xd7b0 && r <= 0xd7ff)) { // (conjoining Hangul vowels and finals take no column of their own: wcwidth 0 in xterm, VTE, glibc)
 		w = 0 // no cell of their own by the Unicode standard, whatever the width table says
 	}
 	if w == 0 {
